@@ -19,6 +19,9 @@ func init() {
 }
 
 func runC10(p *Prog, r *Report) {
+	if want("C10.11") {
+		ruleOptGetters(p, r, "C10.11", "the merge switch", "WriteOptions.GetNoWriteMerge", "Options.GetNoWriteMerge")
+	}
 	if want("C10.10") {
 		// the lock holder stalled by back-pressure gets an answer when the wait fails (shared with C09.10)
 		ruleWriteBackpressure(p, r, "C10.10")
